@@ -10,7 +10,7 @@ from usim import time, Scope, Queue, StreamClosed, instant
 
 from ..engine import EQ, GE, LE, LT, GT, AND, OR, NOT, IMPLIES, MAX, MIN
 from ..explore import Family
-from ..kit import Log, simulate, now, classify_run_exception, Fault
+from ..kit import Log, simulate, now, classify_run_exception, Fault, Payload
 from . import c18 as _c18
 
 BOUNDS = ('np<=2 producers x 2 puts with gaps in [0,15], nc<=2 consumers starting in [0,15] '
@@ -47,7 +47,7 @@ def fam_queue(E, np_, nc, fault_kinds, close_modes=2, real=False, pmax=2, placem
             name = 'p%d' % i
             for j in range(nputs):
                 await (time + gaps[i][j])
-                item = (i, j)
+                item = Payload((i, j))
                 log(name, 'put-call', item)
                 try:
                     await q.put(item)
@@ -96,7 +96,7 @@ def fam_queue(E, np_, nc, fault_kinds, close_modes=2, real=False, pmax=2, placem
     async def late_producer():
         await (time + 105)
         for j in range(2):
-            item = (9, j)
+            item = Payload((9, j))
             log('p9', 'put-call', item)
             try:
                 await q.put(item)
